@@ -110,6 +110,8 @@ def makeDetail (src : List Nat) (offset : Nat) (spans : List Span) (ret : List N
   match slice src 0 offset with
   | none => none
   | some buf =>
+    -- only spans that lie inside the parsed text take part (a span left behind by an abandoned parse alternative lies beyond it)
+    let spans := spans.filter (fun s => s.b ≤ s.e && s.e ≤ offset)
     let groups := groupSpans spans (-1) []
     match spliceGroups groups.length groups.reverse buf with
     | none => none
